@@ -11,6 +11,8 @@
 (*   rej / erej  versions whose CheckCanonicalJSON / EnforcedCanonicalJSON *)
 (*               refused the input                                         *)
 (*   eout  every accepting EnforcedCanonicalJSON returned out              *)
+(*   sb    every entry point called repeatedly on ONE shared buffer gave   *)
+(*         the outcome it gives on a fresh copy of the text                *)
 (* The specification reads the tokens with its own validating reader       *)
 (* (Parse), decides the class of the text, recomputes the canonical bytes  *)
 (* Bytes(Canon(value)) and the enforced verdict per room version, and      *)
@@ -51,8 +53,10 @@ Explains(r) ==
                   /\ (r.out = Bytes(Canon(p.v)) \/ r.out = Bytes(CanonAlt(p.v)))
                   /\ r.av /\ r.idem /\ r.eout
                   /\ \A ver \in MB!AllVersions : EnforcedExplained(r, p.v, ver)
-             [] st = "invalid" -> ~r.ok /\ SeqToSet(r.erej) = MB!AllVersions
-             [] OTHER -> TRUE                                 \* lone surrogate / duplicate keys: only "no panic"
+                  /\ r.sb
+             [] st = "invalid" -> ~r.ok /\ SeqToSet(r.erej) = MB!AllVersions /\ r.sb
+             [] OTHER -> r.ok => NoInventedAstral(r.out, p.v)    \* unpaired surrogates / duplicate keys: no panic, and
+                                                               \* no supplementary code point the text does not hold
 
 \* the writer of CanonJSON.tla is not used here: its variables are frozen
 Frozen == scen = 0 /\ todo = <<>> /\ text = <<>> /\ status = "valid" /\ bud = 0 /\ cor = "none" /\ phase = "done"
@@ -85,5 +89,6 @@ Explain ==
                           exp  |-> IF val THEN Canon(p.v) \o <<>> ELSE <<>>,
                           alt  |-> IF val /\ CanonAlt(p.v) # Canon(p.v) THEN CanonAlt(p.v) \o <<>> ELSE <<>>,
                           bad  |-> IF val THEN InadmissibleLits(p.v) ELSE <<>>,
-                          nz   |-> val /\ HasNegZeroLit(p.v)]))
+                          nz   |-> val /\ HasNegZeroLit(p.v),
+                          ast  |-> IF st \in {"illformed", "dupkeys"} THEN AstralOf(p.v) \o <<>> ELSE <<>>]))
 =============================================================================
